@@ -1,7 +1,7 @@
 """C09 - returning from the program completes everything older than the return."""
 from . import syscheck, sysdiff as S
 
-PROFILES = [('tail', 3), ('ssamem', 2), ('ssald', 1.5), ('ldonly', 1), ('touched', 1), ('hazard', 1), ('mixed', 1)]
+PROFILES = [('tail', 3), ('ssamem', 2), ('ssald', 1.5), ('ldonly', 1), ('touched', 1), ('hazard', 1), ('mixed', 1), ('ssabr1', 1.5)]
 
 
 def run(ctx):
